@@ -1136,3 +1136,568 @@ Proof.
       destruct g. exact G.
     + intro H. inversion H; subst. apply ginv_init.
 Qed.
+
+(* ================================================================ H. what a finished round guarantees *)
+
+Lemma round_accept_ok exec offers sched descs acc dec ab still und o ts :
+  run_round exec offers sched descs = Done acc dec ab still und ->
+  In (o, ts) acc -> offer_ok exec (o, ts).
+Proof.
+  intros H Hin. pose proof (run_round_ginv _ _ _ _ _ _ _ _ _ H) as G.
+  pose proof (gi_ok _ _ _ G) as F. cbn [g_accepts] in F. rewrite Forall_forall in F. apply (F _ Hin).
+Qed.
+
+Lemma round_task_base exec offers sched descs acc dec ab still und o ts t :
+  run_round exec offers sched descs = Done acc dec ab still und ->
+  In (o, ts) acc -> In t ts -> task_base exec o t.
+Proof.
+  intros H Hin Ht. destruct (round_accept_ok _ _ _ _ _ _ _ _ _ _ _ H Hin) as [F _].
+  cbn [fst snd] in F. rewrite Forall_forall in F. apply (F _ Ht).
+Qed.
+
+Lemma round_task_ports exec offers sched descs acc dec ab still und o ts t :
+  run_round exec offers sched descs = Done acc dec ab still und ->
+  In (o, ts) acc -> In t ts -> pvalid (o_ports o) -> task_ports o t.
+Proof.
+  intros H Hin Ht Hv. destruct (round_accept_ok _ _ _ _ _ _ _ _ _ _ _ H Hin) as [_ F].
+  cbn [fst snd] in F. destruct (F Hv) as [_ F2]. rewrite Forall_forall in F2. apply (F2 _ Ht).
+Qed.
+
+(* ---- constraints ---- *)
+Lemma round_constraints exec offers sched descs acc dec ab still und o ts t c :
+  run_round exec offers sched descs = Done acc dec ab still und ->
+  In (o, ts) acc -> In t ts ->
+  In c (d_constraints (t_desc t)) -> is_equals c = true -> sat1 (o_attrs o) c = true.
+Proof.
+  intros H Hin Ht Hc He. destruct (round_task_base _ _ _ _ _ _ _ _ _ _ _ _ H Hin Ht) as [Hs _].
+  apply (satisfy_sound _ _ Hs c Hc He).
+Qed.
+
+Lemma round_class exec offers sched descs acc dec ab still und o ts t :
+  run_round exec offers sched descs = Done acc dec ab still und ->
+  In (o, ts) acc -> In t ts -> exists k, d_class (t_desc t) = Some k.
+Proof.
+  intros H Hin Ht. destruct (round_task_base _ _ _ _ _ _ _ _ _ _ _ _ H Hin Ht) as [_ [k [Hk _]]].
+  exists k. exact Hk.
+Qed.
+
+Lemma round_constraints_nearest exec offers sched descs acc dec ab still und o ts t k a v :
+  run_round exec offers sched descs = Done acc dec ab still und ->
+  In (o, ts) acc -> In t ts -> d_class (t_desc t) = Some k ->
+  d_levels (t_desc t) <> [] ->
+  NoDup (attrs_of (last (d_levels (t_desc t)) [])) ->
+  NoDup (attrs_of (k_cts k)) ->
+  (forall l, In l (d_levels (t_desc t) ++ [k_cts k]) -> forallb is_equals l = true) ->
+  nearest a (d_levels (t_desc t) ++ [k_cts k]) = Some v ->
+  sat1 (o_attrs o) (mkC a v 0) = true.
+Proof.
+  intros H Hin Ht Hk Hne Htop Hkc Heq Hn.
+  assert (Hdc : d_constraints (t_desc t) = desc_constraints (d_levels (t_desc t)) (Some (k_cts k))).
+  { unfold d_constraints. rewrite Hk. reflexivity. }
+  destruct (desc_constraints_nearest (d_levels (t_desc t)) (Some (k_cts k)) Hne Htop Hkc) as [_ L].
+  specialize (L a). cbn [all_levels] in L. rewrite Hn in L.
+  destruct (lookup_c_in _ _ _ L) as [c [Hc [Ea Ev]]].
+  rewrite <- (sat1_ext (o_attrs o) c (mkC a v 0) Ea Ev).
+  apply (round_constraints _ _ _ _ _ _ _ _ _ _ _ _ c H Hin Ht).
+  - rewrite Hdc. exact Hc.
+  - destruct (desc_constraints_in _ _ _ Hc) as [l [Hl Hcl]]. cbn [all_levels] in Hl.
+    specialize (Heq l Hl). rewrite forallb_forall in Heq. apply (Heq c Hcl).
+Qed.
+
+Lemma satisfy_iff a cts :
+  forallb is_equals cts = true ->
+  (satisfy a cts = true <-> forall c, In c cts -> sat1 a c = true).
+Proof.
+  intro H. rewrite (satisfy_equals a cts H). unfold sat_all. apply forallb_forall.
+Qed.
+
+(* ---- resources ---- *)
+Lemma round_resources exec offers sched descs acc dec ab still und o ts t k :
+  run_round exec offers sched descs = Done acc dec ab still und ->
+  In (o, ts) acc -> In t ts -> d_class (t_desc t) = Some k ->
+  (exists c, o_cpu o = Some c /\ k_cpu k <= c) /\
+  (exists m, o_mem o = Some m /\ k_mem k <= m) /\
+  (pvalid (o_ports o) -> Forall rvalid (k_static k) ->
+   forall p, inr p (k_static k) = true -> pmem p (o_ports o) = true).
+Proof.
+  intros H Hin Ht Hk.
+  destruct (round_task_base _ _ _ _ _ _ _ _ _ _ _ _ H Hin Ht) as [_ [k' [Hk' [Hc [Hm _]]]]].
+  rewrite Hk in Hk'. inversion Hk'; subst k'. split; [exact Hc|]. split; [exact Hm|].
+  intros Hv Hs p Hp.
+  destruct (round_task_ports _ _ _ _ _ _ _ _ _ _ _ _ H Hin Ht Hv) as [_ [_ [_ X]]].
+  apply (X k Hk Hs p Hp).
+Qed.
+
+(* ---- ports ---- *)
+Lemma round_ports_from_offer exec offers sched descs acc dec ab still und o ts t :
+  run_round exec offers sched descs = Done acc dec ab still und ->
+  In (o, ts) acc -> In t ts -> pvalid (o_ports o) ->
+  (forall p, In p (picked t) -> pmem p (o_ports o) = true) /\
+  (forall p, In p (map snd (t_dyn t)) -> data_port_floor < p) /\
+  control_port_floor < t_ctl t.
+Proof.
+  intros H Hin Ht Hv.
+  destruct (round_task_ports _ _ _ _ _ _ _ _ _ _ _ _ H Hin Ht Hv) as [A [B [C _]]]. auto.
+Qed.
+
+Lemma round_ports_per_channel exec offers sched descs acc dec ab still und o ts t k :
+  run_round exec offers sched descs = Done acc dec ab still und ->
+  In (o, ts) acc -> In t ts -> d_class (t_desc t) = Some k ->
+  map fst (t_dyn t) = map ch_name (filter ch_tcp (merge_inbound (d_rbind (t_desc t)) (k_bind k))) /\
+  t_handed t = (if k_controllable k then Some (t_ctl t) else None).
+Proof.
+  intros H Hin Ht Hk.
+  destruct (round_task_base _ _ _ _ _ _ _ _ _ _ _ _ H Hin Ht) as [_ [k' [Hk' [_ [_ Hsh]]]]].
+  rewrite Hk in Hk'. inversion Hk'; subst k'. destruct Hsh as [_ [A [B _]]]. auto.
+Qed.
+
+Lemma round_request exec offers sched descs acc dec ab still und o ts t k :
+  run_round exec offers sched descs = Done acc dec ab still und ->
+  In (o, ts) acc -> In t ts -> d_class (t_desc t) = Some k ->
+  t_cpu t = k_cpu k + fst exec /\ t_mem t = k_mem k + snd exec /\
+  (Forall rvalid (k_static k) ->
+   forall p, inr p (t_req t) = inr p (k_static k) || memN p (picked t)).
+Proof.
+  intros H Hin Ht Hk.
+  destruct (round_task_base _ _ _ _ _ _ _ _ _ _ _ _ H Hin Ht) as [_ [k' [Hk' [_ [_ Hsh]]]]].
+  rewrite Hk in Hk'. inversion Hk'; subst k'.
+  pose proof (shaped_req _ _ _ _ _ _ Hsh) as R.
+  destruct Hsh as [_ [_ [_ [_ [A [B _]]]]]]. auto.
+Qed.
+
+Lemma floors_le : data_port_floor <= control_port_floor.
+Proof. vm_compute. discriminate. Qed.
+
+Lemma all_picked_In p ts : In p (all_picked ts) <-> exists t, In t ts /\ In p (picked t).
+Proof. unfold all_picked. apply in_flat_map. Qed.
+
+Lemma picked_above_floor o t p : task_ports o t -> In p (picked t) -> data_port_floor < p.
+Proof.
+  intros [_ [B [C _]]] Hp. unfold picked in Hp. apply in_app_or in Hp. destruct Hp as [Hp|[Hp|[]]].
+  - apply (B p Hp).
+  - subst p. pose proof floors_le. lia.
+Qed.
+
+Lemma round_ports_distinct exec offers sched descs acc dec ab still und o ts :
+  run_round exec offers sched descs = Done acc dec ab still und ->
+  In (o, ts) acc -> pvalid (o_ports o) ->
+  NoDup (all_picked ts) /\
+  (forall t k p, In t ts -> d_class (t_desc t) = Some k -> inr p (k_static k) = true ->
+                 p <= data_port_floor -> ~ In p (all_picked ts)) /\
+  (forall o2 ts2, In (o2, ts2) acc -> pvalid (o_ports o2) ->
+                  (forall p, pmem p (o_ports o) = true -> pmem p (o_ports o2) = false) ->
+                  forall p, In p (all_picked ts) -> ~ In p (all_picked ts2)).
+Proof.
+  intros H Hin Hv. destruct (round_accept_ok _ _ _ _ _ _ _ _ _ _ _ H Hin) as [_ F].
+  cbn [fst snd] in F. destruct (F Hv) as [N1 F1]. rewrite Forall_forall in F1.
+  split; [exact N1|]. split.
+  - intros t k p _ _ _ Hle Hp. apply all_picked_In in Hp. destruct Hp as [t' [Ht' Hp]].
+    pose proof (picked_above_floor o t' p (F1 _ Ht') Hp). lia.
+  - intros o2 ts2 Hin2 Hv2 Hdis p Hp Hp2.
+    apply all_picked_In in Hp. destruct Hp as [t1 [Ht1 Hp]].
+    apply all_picked_In in Hp2. destruct Hp2 as [t2 [Ht2 Hp2]].
+    destruct (F1 _ Ht1) as [A1 _].
+    destruct (round_task_ports _ _ _ _ _ _ _ _ _ _ _ _ H Hin2 Ht2 Hv2) as [A2 _].
+    specialize (Hdis p (A1 p Hp)). rewrite (A2 p Hp2) in Hdis. discriminate.
+Qed.
+
+(* ---- decline ---- *)
+Lemma round_decline exec offers sched descs acc dec ab still und :
+  run_round exec offers sched descs = Done acc dec ab still und ->
+  (forall o ts, In (o, ts) acc -> ts <> [] -> ~ In (o_id o) dec) /\
+  (forall o, In o offers -> ~ In (o_id o) dec ->
+     (exists o' ts, In (o', ts) acc /\ o_id o' = o_id o /\ ts <> []) \/ In (o_id o) ab).
+Proof.
+  intro H. destruct (run_round_ginv _ _ _ _ _ _ _ _ _ H) as [_ Gu Gn].
+  cbn [g_accepts g_decline g_aband] in *. split; [exact Gu|].
+  intros o Ho Hd. apply (Gn (o_id o)); [apply in_map; exact Ho|exact Hd].
+Qed.
+
+(* ================================================================ I. witnesses of the refuted statements *)
+
+Definition w_exec : N * N := (10, 64000).
+Definition w_full : portres := Some [(9000, 9100); (30000, 30100)].
+Definition w_offer (attrs : attrs) (cpu : N) (ports : portres) : offer :=
+  mkOffer 0 0 attrs (Some cpu) (Some 4096000) ports 0.
+Definition w_class (cpu : N) (static : ranges) (bind : list chan) : klass :=
+  mkClass [] cpu 64000 static bind true.
+Definition w_desc (i : N) (levels : list (list cstr)) (k : klass) : desc := mkDesc i levels [] (Some k).
+Definition w_round (o : offer) (ds : list desc) : outcome := run_round w_exec [o] [o] ds.
+
+(* C05-c: wants.ports "9000" and one inbound TCP channel *)
+Definition w1_o := w_offer [] 1000 w_full.
+Definition w1_k := w_class 100 [(9000, 9000)] [mkChan 1 true].
+Definition w1_d := w_desc 0 [[]] w1_k.
+Definition w1_t := mkTask w1_d [(1, 9000)] 30000 (Some 30000) [(9000, 9000); (30000, 30000)] 110 128000 false.
+Lemma w1_run : w_round w1_o [w1_d] = Done [(w1_o, [w1_t])] [] [] [] [].
+Proof. vm_compute. reflexivity. Qed.
+
+(* C05-d: two tasks wanting 0.6 cpu each, 1.0 cpu offered *)
+Definition w2_o := w_offer [] 1000 w_full.
+Definition w2_k := w_class 600 [] [].
+Definition w2_d0 := w_desc 0 [[]] w2_k.
+Definition w2_d1 := w_desc 1 [[]] w2_k.
+Definition w2_t1 := mkTask w2_d1 [] 30000 (Some 30000) [(30000, 30000)] 610 128000 false.
+Definition w2_t0 := mkTask w2_d0 [] 30001 (Some 30001) [(30001, 30001)] 610 128000 false.
+Lemma w2_run : w_round w2_o [w2_d0; w2_d1] = Done [(w2_o, [w2_t1; w2_t0])] [] [] [] [].
+Proof. vm_compute. reflexivity. Qed.
+
+(* C05-g: no port above the control cut-off *)
+Definition w3_o := w_offer [] 1000 (Some [(9000, 9100)]).
+Definition w3_d := w_desc 0 [[]] (w_class 100 [] []).
+Lemma w3_run : w_round w3_o [w3_d] = Crash.
+Proof. vm_compute. reflexivity. Qed.
+
+(* C05-f: the only port goes to the channel, the control port finds no ports resource *)
+Definition w4_o := w_offer [] 1000 (Some [(9000, 9000)]).
+Definition w4_d := w_desc 0 [[]] (w_class 100 [] [mkChan 1 true]).
+Lemma w4_run : w_round w4_o [w4_d] = Done [(w4_o, [])] [] [0] [w4_d] [].
+Proof. vm_compute. reflexivity. Qed.
+
+(* C05-e: the top-level role names zone twice *)
+Definition w5_o := w_offer [(w_zone, w_z2)] 1000 w_full.
+Definition w5_k := w_class 100 [] [].
+Definition w5_d := w_desc 0 w_levels w5_k.
+Definition w5_t := mkTask w5_d [] 30000 (Some 30000) [(30000, 30000)] 110 128000 false.
+Lemma w5_run : w_round w5_o [w5_d] = Done [(w5_o, [w5_t])] [] [] [] [].
+Proof. vm_compute. reflexivity. Qed.
+
+(* C05-h: wants exactly the offered cpu *)
+Definition w6_o := w_offer [] 1000 w_full.
+Definition w6_k := w_class 1000 [] [].
+Definition w6_d := w_desc 0 [[]] w6_k.
+Definition w6_t := mkTask w6_d [] 30000 (Some 30000) [(30000, 30000)] 1010 128000 false.
+Lemma w6_run : w_round w6_o [w6_d] = Done [(w6_o, [w6_t])] [] [] [] [].
+Proof. vm_compute. reflexivity. Qed.
+
+Lemma w_full_valid : pvalid w_full.
+Proof. cbn. repeat constructor; unfold rvalid; cbn; lia. Qed.
+
+(* ---- the full statements that the unchanged code does not satisfy ---- *)
+
+(* nearest definition wins, whatever the lists look like *)
+Definition st_merge_nearest : Prop :=
+  forall levels k a, levels <> [] ->
+    lookup_c a (desc_constraints levels k) = nearest a (all_levels levels k).
+
+Lemma merge_nearest_refuted : ~ st_merge_nearest.
+Proof.
+  intro H. specialize (H w_levels (Some []) w_zone).
+  destruct merge_nearest_counterexample as [A B]. rewrite A, B in H.
+  assert (X : w_levels <> []) by discriminate. specialize (H X). discriminate.
+Qed.
+
+(* a launched task's agent satisfies the nearest definition of every attribute *)
+Definition st_constraints_nearest : Prop :=
+  forall exec offers sched descs acc dec ab still und o ts t k a v,
+    run_round exec offers sched descs = Done acc dec ab still und ->
+    In (o, ts) acc -> In t ts -> d_class (t_desc t) = Some k ->
+    nearest a (d_levels (t_desc t) ++ [k_cts k]) = Some v ->
+    sat1 (o_attrs o) (mkC a v 0) = true.
+
+Lemma constraints_nearest_refuted : ~ st_constraints_nearest.
+Proof.
+  intro H.
+  specialize (H w_exec [w5_o] [w5_o] [w5_d] _ _ _ _ _ w5_o [w5_t] w5_t w5_k w_zone w_z3 w5_run
+                (or_introl eq_refl) (or_introl eq_refl) eq_refl eq_refl).
+  vm_compute in H. discriminate.
+Qed.
+
+(* static, dynamic and control ports of the tasks on one offer are pairwise distinct *)
+Definition st_ports_distinct : Prop :=
+  forall exec offers sched descs acc dec ab still und o ts,
+    run_round exec offers sched descs = Done acc dec ab still und ->
+    In (o, ts) acc -> pvalid (o_ports o) ->
+    NoDup (all_picked ts) /\
+    (forall t k p, In t ts -> d_class (t_desc t) = Some k -> inr p (k_static k) = true ->
+                   ~ In p (all_picked ts)) /\
+    (forall i j ti tj ki kj p, i <> j -> nth_error ts i = Some ti -> nth_error ts j = Some tj ->
+        d_class (t_desc ti) = Some ki -> d_class (t_desc tj) = Some kj ->
+        inr p (k_static ki) = true -> inr p (k_static kj) = false).
+
+Lemma ports_distinct_refuted : ~ st_ports_distinct.
+Proof.
+  intro H.
+  destruct (H w_exec [w1_o] [w1_o] [w1_d] _ _ _ _ _ w1_o [w1_t] w1_run (or_introl eq_refl) w_full_valid)
+    as [_ [H2 _]].
+  apply (H2 w1_t w1_k 9000 (or_introl eq_refl) eq_refl eq_refl).
+  vm_compute. left. reflexivity.
+Qed.
+
+Definition want_cpu (t : task) : N := match d_class (t_desc t) with Some k => k_cpu k | None => 0 end.
+Definition want_mem (t : task) : N := match d_class (t_desc t) with Some k => k_mem k | None => 0 end.
+
+(* what the templates of all tasks launched on one offer ask for does not exceed the offer *)
+Definition st_request_within_offer : Prop :=
+  forall exec offers sched descs acc dec ab still und o ts,
+    run_round exec offers sched descs = Done acc dec ab still und ->
+    In (o, ts) acc -> ts <> [] ->
+    exists c m, o_cpu o = Some c /\ o_mem o = Some m /\
+                sumN (map want_cpu ts) <= c /\ sumN (map want_mem ts) <= m.
+
+Lemma request_within_offer_refuted : ~ st_request_within_offer.
+Proof.
+  intro H.
+  destruct (H w_exec [w2_o] [w2_o] [w2_d0; w2_d1] _ _ _ _ _ w2_o [w2_t1; w2_t0] w2_run
+              (or_introl eq_refl)) as [c [m [Hc [_ [Hs _]]]]]; [discriminate|].
+  inversion Hc; subst c. vm_compute in Hs. apply Hs. reflexivity.
+Qed.
+
+Lemma request_within_offer_single exec offers sched descs acc dec ab still und o t :
+  run_round exec offers sched descs = Done acc dec ab still und ->
+  In (o, [t]) acc ->
+  exists c m, o_cpu o = Some c /\ o_mem o = Some m /\
+              sumN (map want_cpu [t]) <= c /\ sumN (map want_mem [t]) <= m.
+Proof.
+  intros H Hin.
+  destruct (round_task_base _ _ _ _ _ _ _ _ _ _ _ _ H Hin (or_introl eq_refl))
+    as [_ [k [Hk [[c [Hc Lc]] [[m [Hm Lm]] _]]]]].
+  exists c, m. unfold want_cpu, want_mem. cbn [map sumN fold_right]. rewrite Hk, !N.add_0_r. auto.
+Qed.
+
+(* the cpu / memory a TaskInfo asks for is covered by the offer *)
+Definition st_taskinfo_within_offer : Prop :=
+  forall exec offers sched descs acc dec ab still und o t,
+    run_round exec offers sched descs = Done acc dec ab still und ->
+    In (o, [t]) acc ->
+    exists c m, o_cpu o = Some c /\ o_mem o = Some m /\ t_cpu t <= c /\ t_mem t <= m.
+
+Lemma taskinfo_within_offer_refuted : ~ st_taskinfo_within_offer.
+Proof.
+  intro H.
+  destruct (H w_exec [w6_o] [w6_o] [w6_d] _ _ _ _ _ w6_o w6_t w6_run (or_introl eq_refl))
+    as [c [m [Hc [_ [Hs _]]]]].
+  inversion Hc; subst c. vm_compute in Hs. apply Hs. reflexivity.
+Qed.
+
+(* an offer is in the DECLINE call exactly when no task was launched on it *)
+Definition st_unused_declined : Prop :=
+  forall exec offers sched descs acc dec ab still und,
+    run_round exec offers sched descs = Done acc dec ab still und ->
+    (forall o ts, In (o, ts) acc -> ts <> [] -> ~ In (o_id o) dec) /\
+    (forall o, In o offers -> ~ In (o_id o) dec ->
+       exists o' ts, In (o', ts) acc /\ o_id o' = o_id o /\ ts <> []).
+
+Lemma unused_declined_refuted : ~ st_unused_declined.
+Proof.
+  intro H.
+  destruct (H w_exec [w4_o] [w4_o] [w4_d] _ _ _ _ _ w4_run) as [_ H2].
+  destruct (H2 w4_o (or_introl eq_refl)) as [o' [ts [Hin [_ Hne]]]].
+  - intros [].
+  - destruct Hin as [Hin|[]]. inversion Hin; subst. apply Hne. reflexivity.
+Qed.
+
+Lemma unused_declined_no_abandon exec offers sched descs acc dec still und :
+  run_round exec offers sched descs = Done acc dec [] still und ->
+  (forall o ts, In (o, ts) acc -> ts <> [] -> ~ In (o_id o) dec) /\
+  (forall o, In o offers -> ~ In (o_id o) dec ->
+     exists o' ts, In (o', ts) acc /\ o_id o' = o_id o /\ ts <> []).
+Proof.
+  intro H. destruct (round_decline _ _ _ _ _ _ _ _ _ H) as [A B]. split; [exact A|].
+  intros o Ho Hd. destruct (B o Ho Hd) as [X|[]]. exact X.
+Qed.
+
+(* the handler finishes the round (does not take the core down) *)
+Definition st_round_completes : Prop :=
+  forall exec offers sched descs,
+    (forall o, In o offers -> pvalid (o_ports o)) -> run_round exec offers sched descs <> Crash.
+
+Lemma round_crash_witness : ~ st_round_completes.
+Proof.
+  intro H. apply (H w_exec [w3_o] [w3_o] [w3_d]); [|exact w3_run].
+  intros o [Ho|[]]. subst o. cbn. repeat constructor; unfold rvalid; cbn; lia.
+Qed.
+
+(* ================================================================ J. RangesFromExpression *)
+
+Fixpoint p10 (f : nat) : N := match f with O => 1 | S f' => 10 * p10 f' end.
+
+Lemma digits_val_app s : forall c acc,
+  digits_val (s ++ [c]) acc =
+  match digits_val s acc with
+  | Some v => if is_digit c then Some (v * 10 + (c - 48)) else None
+  | None => None
+  end.
+Proof.
+  induction s as [|d r IH]; intros c acc; cbn [app digits_val].
+  - destruct (is_digit c); reflexivity.
+  - destruct (is_digit d); [apply IH|reflexivity].
+Qed.
+
+Lemma is_digit_small n : n < 10 -> is_digit (48 + n) = true.
+Proof. intro H. unfold is_digit. bool_arith. Qed.
+
+Lemma dec_fuel_val : forall f n, n < p10 f -> digits_val (dec_fuel f n) 0 = Some n.
+Proof.
+  induction f as [|f IH]; intros n H; cbn [p10] in H.
+  - assert (n = 0) by lia. subst n. reflexivity.
+  - cbn [dec_fuel]. destruct (n <? 10) eqn:E.
+    + apply N.ltb_lt in E. cbn [digits_val]. rewrite (is_digit_small n E). f_equal. lia.
+    + apply N.ltb_ge in E. rewrite digits_val_app.
+      assert (Hq : n / 10 < p10 f) by (apply N.div_lt_upper_bound; lia).
+      rewrite (IH _ Hq).
+      assert (Hm : n mod 10 < 10) by (apply N.mod_lt; discriminate).
+      rewrite (is_digit_small _ Hm). f_equal.
+      pose proof (N.div_mod n 10 ltac:(discriminate)) as X.
+      clear IH Hq. generalize dependent (n / 10). generalize dependent (n mod 10). intros r Hr q Hx. lia.
+Qed.
+
+Lemma dec_fuel_digits : forall f n, forallb is_digit (dec_fuel f n) = true.
+Proof.
+  induction f as [|f IH]; intro n; [reflexivity|]. cbn [dec_fuel]. destruct (n <? 10) eqn:E.
+  - apply N.ltb_lt in E. cbn [forallb]. rewrite (is_digit_small n E). reflexivity.
+  - rewrite forallb_app, IH. cbn [forallb andb].
+    assert (Hm : n mod 10 < 10) by (apply N.mod_lt; discriminate).
+    rewrite (is_digit_small _ Hm). reflexivity.
+Qed.
+
+Lemma dec_fuel_nonempty f n : dec_fuel (S f) n <> [].
+Proof.
+  cbn [dec_fuel]. destruct (n <? 10); [discriminate|]. intro H. apply app_eq_nil in H. destruct H. discriminate.
+Qed.
+
+Lemma two64_lt_p10_40 : two64 < p10 40.
+Proof. vm_compute. reflexivity. Qed.
+
+Lemma parse_uint_dec n : n < two64 -> parse_uint (dec n) = Some n.
+Proof.
+  intro H. unfold parse_uint, dec. destruct (dec_fuel 40 n) eqn:E.
+  - exfalso. apply (dec_fuel_nonempty 39 n). exact E.
+  - rewrite <- E. rewrite dec_fuel_val; [|pose proof two64_lt_p10_40; lia].
+    apply N.ltb_lt in H. rewrite H. reflexivity.
+Qed.
+
+Lemma forallb_existsb_false {A} (P Q : A -> bool) s :
+  (forall c, P c = true -> Q c = false) -> forallb P s = true -> existsb Q s = false.
+Proof.
+  intro H. induction s as [|c r IH]; cbn; intro F; [reflexivity|].
+  apply andb_true_iff in F. destruct F as [F1 F2]. rewrite (H c F1), (IH F2). reflexivity.
+Qed.
+
+Lemma digit_not c k : is_digit c = true -> (k <? 48) || (57 <? k) = true -> N.eqb k c = false.
+Proof. unfold is_digit. bool_arith. Qed.
+
+Lemma digits_no sep s :
+  (sep <? 48) || (57 <? sep) = true -> forallb is_digit s = true -> existsb (N.eqb sep) s = false.
+Proof.
+  intros Hs. apply forallb_existsb_false. intros c Hc. apply (digit_not c sep Hc Hs).
+Qed.
+
+Lemma digit_no_space c : is_digit c = true -> is_space c = false.
+Proof. unfold is_digit, is_space. bool_arith. Qed.
+
+Lemma split_on_app sep a b :
+  existsb (N.eqb sep) a = false -> split_on sep (a ++ sep :: b) = a :: split_on sep b.
+Proof.
+  induction a as [|c r IH]; cbn [app existsb]; intro H.
+  - cbn [split_on]. rewrite N.eqb_refl. reflexivity.
+  - apply orb_false_iff in H. destruct H as [H1 H2]. cbn [split_on].
+    rewrite N.eqb_sym in H1. rewrite H1. rewrite (IH H2). reflexivity.
+Qed.
+
+Definition no_space (s : str) : Prop := existsb is_space s = false.
+
+Lemma trim_left_id s : no_space s -> trim_left s = s.
+Proof.
+  unfold no_space. destruct s as [|c r]; [reflexivity|]. cbn. intro H.
+  apply orb_false_iff in H. destruct H as [H _]. rewrite H. reflexivity.
+Qed.
+
+Lemma no_space_rev s : no_space s -> no_space (rev s).
+Proof.
+  unfold no_space. intro H. destruct (existsb is_space (rev s)) eqn:E; [|reflexivity].
+  apply existsb_exists in E. destruct E as [c [Hc1 Hc2]]. apply in_rev in Hc1.
+  assert (X : existsb is_space s = true) by (apply existsb_exists; exists c; auto). congruence.
+Qed.
+
+Lemma trim_space_id s : no_space s -> trim_space s = s.
+Proof.
+  intro H. unfold trim_space. rewrite (trim_left_id s H), (trim_left_id _ (no_space_rev s H)).
+  apply rev_involutive.
+Qed.
+
+Lemma no_space_app a b : no_space a -> no_space b -> no_space (a ++ b).
+Proof. unfold no_space. intros Ha Hb. rewrite existsb_app, Ha, Hb. reflexivity. Qed.
+
+Lemma digits_no_space s : forallb is_digit s = true -> no_space s.
+Proof. apply forallb_existsb_false. exact digit_no_space. Qed.
+
+Lemma dec_digits n : forallb is_digit (dec n) = true.
+Proof. apply dec_fuel_digits. Qed.
+
+Definition fits (r : range) : Prop := fst r < two64 /\ snd r < two64.
+
+Lemma print_item_no_space r : no_space (print_item r).
+Proof.
+  unfold print_item. destruct (N.eqb (fst r) (snd r)).
+  - apply digits_no_space, dec_digits.
+  - apply no_space_app; [apply digits_no_space, dec_digits|].
+    apply no_space_app; [reflexivity|apply digits_no_space, dec_digits].
+Qed.
+
+Lemma print_item_no_comma r : existsb (N.eqb comma) (print_item r) = false.
+Proof.
+  unfold print_item. destruct (N.eqb (fst r) (snd r)).
+  - apply digits_no; [reflexivity|apply dec_digits].
+  - rewrite !existsb_app. rewrite !(digits_no comma _ eq_refl (dec_digits _)). reflexivity.
+Qed.
+
+Lemma parse_item_print r : fits r -> parse_item (print_item r) = Some r.
+Proof.
+  intros [H1 H2]. unfold parse_item. rewrite (trim_space_id _ (print_item_no_space r)).
+  unfold print_item. destruct (N.eqb (fst r) (snd r)) eqn:E.
+  - apply N.eqb_eq in E. rewrite (split_on_no_sep dash (dec (fst r))).
+    + rewrite (parse_uint_dec _ H1). destruct r as [a b]. cbn in *. subst b. reflexivity.
+    + apply digits_no; [reflexivity|apply dec_digits].
+  - cbn [app]. rewrite split_on_app; [|apply digits_no; [reflexivity|apply dec_digits]].
+    rewrite (split_on_no_sep dash (dec (snd r))); [|apply digits_no; [reflexivity|apply dec_digits]].
+    rewrite (parse_uint_dec _ H1), (parse_uint_dec _ H2). destruct r; reflexivity.
+Qed.
+
+Lemma print_ranges_cons r t :
+  t <> [] -> print_ranges (r :: t) = print_item r ++ comma :: print_ranges t.
+Proof. destruct t; [congruence|reflexivity]. Qed.
+
+Lemma parse_items_print : forall l, l <> [] -> Forall fits l ->
+  parse_items (split_on comma (print_ranges l)) = Some l.
+Proof.
+  induction l as [|r t IH]; intros Hne Hf; [congruence|].
+  inversion Hf as [|x xs Hr Ht]; subst. destruct t as [|r2 t2].
+  - cbn [print_ranges]. rewrite (split_on_no_sep comma _ (print_item_no_comma r)).
+    cbn [parse_items]. rewrite (parse_item_print r Hr). reflexivity.
+  - rewrite print_ranges_cons by discriminate.
+    rewrite (split_on_app comma _ _ (print_item_no_comma r)).
+    cbn [parse_items]. rewrite (parse_item_print r Hr).
+    rewrite IH; [reflexivity|discriminate|exact Ht].
+Qed.
+
+Lemma print_ranges_no_space : forall l, no_space (print_ranges l).
+Proof.
+  induction l as [|r t IH]; [reflexivity|]. destruct t as [|r2 t2].
+  - apply print_item_no_space.
+  - rewrite print_ranges_cons by discriminate.
+    apply no_space_app; [apply print_item_no_space|].
+    change (comma :: print_ranges (r2 :: t2)) with ([comma] ++ print_ranges (r2 :: t2)).
+    apply no_space_app; [reflexivity|exact IH].
+Qed.
+
+Lemma print_item_nonempty r : print_item r <> [].
+Proof.
+  unfold print_item. destruct (N.eqb (fst r) (snd r)).
+  - apply (dec_fuel_nonempty 39).
+  - intro H. apply app_eq_nil in H. destruct H as [H _]. apply (dec_fuel_nonempty 39 _ H).
+Qed.
+
+(* static ranges exactly as written: whatever list of ranges a template spells in the
+   "a", "a-b", comma-separated notation is what RangesFromExpression returns *)
+Lemma parse_print_roundtrip l : Forall fits l -> parse_ranges (print_ranges l) = Some l.
+Proof.
+  intro Hf. unfold parse_ranges. rewrite (trim_space_id _ (print_ranges_no_space l)).
+  destruct l as [|r t]; [reflexivity|].
+  destruct (print_ranges (r :: t)) eqn:E.
+  - exfalso. destruct t as [|r2 t2].
+    + apply (print_item_nonempty r E).
+    + rewrite print_ranges_cons in E by discriminate. apply app_eq_nil in E. destruct E as [E _].
+      apply (print_item_nonempty r E).
+  - rewrite <- E. apply parse_items_print; [discriminate|exact Hf].
+Qed.
